@@ -61,7 +61,8 @@ IllTyped == Fail("IllTyped", {}, "")
 
 InContainer(c, x) == \E i \in 1 .. Len(c.l) : c.l[i] = x
 
-Call(f, args) == IF <<f, args>> \in Raises THEN UserErr(f) ELSE Ok(Tv(f, args))
+\* the callable "none" returns None (a legitimate value that must be memoised like any other)
+Call(f, args) == IF <<f, args>> \in Raises THEN UserErr(f) ELSE IF f = "none" THEN Ok(Nv) ELSE Ok(Tv(f, args))
 
 Dotted(p) == LET RECURSIVE J(_) J(i) == IF i = Len(p) THEN p[i] ELSE p[i] \o "." \o J(i + 1) IN J(1)
 
